@@ -12,6 +12,16 @@ UNIT = dict(
             ("process_wrap::tokio::ResetSigmask", "ResetSigmask"),
         ],
     ),
+    # the shell-selection head of interpret_command_args is string code outside the extraction subset: its two precedence decisions are pinned
+    # structurally and exercised on the real binary (replay/cli_argv.py, with and without $SHELL set)
+    structural=[
+        dict(id="C18.structure.no_shell_flag_comes_first", file="crates/cli/src/config.rs", count_in_fn="interpret_command_args", pattern="let shell = if args.command.no_shell { None } else {", expect=1,
+             why="-n means no shell, whatever --shell or $SHELL say"),
+        dict(id="C18.structure.an_explicit_shell_wins_over_the_environment", file="crates/cli/src/config.rs", count_in_fn="interpret_command_args",
+             pattern="let shell = args.command.shell.clone().or_else(|| var(\"SHELL\").ok());", expect=1,
+             why="--shell (including --shell=none: arguments byte for byte) is not overridden by $SHELL, which is only the fallback"),
+        dict(id="C18.structure.the_environment_shell_is_read_once", file="crates/cli/src/config.rs", count_in_fn="interpret_command_args", pattern="var(\"SHELL\")", expect=1, why="see above"),
+    ],
     extract=[
         dict(id="SpawnOptions", kind="type", src=C + ".rs", name="SpawnOptions", drop_derive=["PartialEq", "Eq"]),
         dict(id="Shell", kind="type", src=C + "/shell.rs", name="Shell", drop_derive=["Clone", "PartialEq", "Eq"]),
